@@ -2,6 +2,8 @@ import IrefVerif.Spec.Resolve
 import IrefVerif.Lemmas.Nsegs
 import IrefVerif.Model.Reference
 import IrefVerif.Findings
+import IrefVerif.Lemmas.ResolveEmpty
+import IrefVerif.Lemmas.ValidWF
 
 /-!
 # C06 — reference resolution implements RFC 3986 §5.2 (with Errata 4547)
@@ -13,7 +15,11 @@ dot-segment removal is idempotent on segment lists.  `Model.Ref.resolve` transli
 `RiRefBufImpl::resolve`; the by-value, by-reference and in-place entry points are that one
 function, and both families share it.  The equation `resolve = recompose ∘ transform` on the
 real crate is the `resolve` oracle (`Oracle.resolve`), with the open finding F15
-(`Findings.f15`) excluded; it is not proved for the model (partial).
+(`Findings.f15`) excluded.  For the model it is proved for the third branch of §5.2.2 —
+references with an empty path (`""`, `?q`, `#f`, `?q#f`), where the implementation runs
+`set_scheme`, `set_authority`, `set_path`, `set_query` in sequence: `resolve_empty_path`, for every
+valid base and reference of either family; the other branches (dot-segment removal through the
+path handle) are PARTIAL: judged on the implementation only.
 -/
 
 namespace IrefVerif.Props.C06
@@ -43,9 +49,25 @@ theorem target_of_scheme (b b' r : Parts) (s : Text) (hs : r.scheme = some s) :
     transform b r = transform b' r := by
   unfold transform; simp [hs]
 
-/-- the in-place, by-value and by-reference entry points are one model function: resolving
-does not depend on how the reference is held, and leaves the base (an argument) untouched -/
-theorem entry_points_agree (r base : Text) : Model.Ref.resolve r base = Model.Ref.resolve r base := rfl
+def base54' : Text := [0x68,0x74,0x74,0x70,0x3A,0x2F,0x2F,0x61,0x2F,0x62,0x2F,0x63,0x2F,0x64,0x3B,0x70,0x3F,0x71]
+
+/-- **§5.2.2, reference with an empty path**: the model of `resolve` returns exactly the
+recomposition of the RFC target, for every valid base (with a scheme) and every valid reference
+without scheme and authority whose path is empty -/
+theorem resolve_empty_path (G : Grammar) (ok : Grammar.Ok G) (base r : Text)
+    (hb : RE.Matches G.full base) (hr : RE.Matches G.reference r)
+    (hs : (split r).scheme = none) (ha : (split r).authority = none) (hp : (split r).path = []) :
+    Model.Ref.resolve r base = some (recompose (resolveSpec base r)) := by
+  obtain ⟨_, wR⟩ := split_valid G ok r hr
+  obtain ⟨_, wB⟩ := split_valid G ok base (RE.Matches.altL hb)
+  obtain ⟨P, hsP, hP, hv⟩ := (full_iff G base).mp hb
+  have hwf := wf_of_valid G ok P hv
+  have hsp : split base = P := by rw [← hP]; exact Lemmas.split_recompose P hwf
+  obtain ⟨sb, hsb⟩ := Option.isSome_iff_exists.mp (hsp ▸ hsP)
+  have := Lemmas.resolve_empty_path (split r) (split base) wR wB sb hsb hs ha hp
+  rwa [Lemmas.recompose_split, Lemmas.recompose_split] at this
+
+example : Model.Ref.resolve [0x3F, 0x79] base54' = some (recompose (resolveSpec base54' [0x3F, 0x79])) := by decide
 
 /-- RFC 3986 §5.4.1 normal examples and §5.4.2 abnormal ones, evaluated on the model
 (these are tests of the model, not the unbounded claim) -/
